@@ -301,7 +301,11 @@ def run_script(ctx, sc, stratum="script"):
                 bad("track_wire-index", si, len(model), i)
             model.append(key(st[1]))
         elif k == "track_wires":
-            idx = td.track_wires([tw(w) for w in st[1]])
+            ws_ = [tw(w) for w in st[1]]
+            # (track_wires takes any Iterable of wires: a list, a tuple, a one-shot generator in turn)
+            how_ = (si + len(ws_)) % 3
+            ctx.feat(f"feature:track_wires-{['list', 'tuple', 'generator'][how_]}")
+            idx = td.track_wires(ws_ if how_ == 0 else tuple(ws_) if how_ == 1 else (w_ for w_ in ws_))
             if idx != list(range(len(model), len(model) + len(st[1]))):
                 bad("track_wires-indices", si, list(range(len(model), len(model) + len(st[1]))), idx)
             model.extend(key(w) for w in st[1])
